@@ -644,8 +644,8 @@ func c18xGenerate(co *caseOut, r *rng, cf *commonFlags) {
 				hs = append(hs, hx(r.bytes(32)))
 			}
 		}
-		if cf.tier == "quick" && l > 12 && l%4 != 1 && l != 40 && l != 32 && l != 33 && l != 31 {
-			continue // the quick tier keeps every length up to 12, then the odd/even and power-of-two boundaries
+		if cf.tier == "quick" && l > 9 && l != 16 && l != 17 && l != 31 && l != 32 && l != 33 && l != int(21+cf.seed%19) {
+			continue // the quick tier keeps every length up to 9, the power-of-two boundaries and one more length chosen by the seed
 		}
 		merkleQ = append(merkleQ, c18xInput{Hashes: hs})
 	}
